@@ -151,6 +151,19 @@ def run(shard, ctx):
                     ctx.fail("C02:%s.rebuild_on_instance" % c.name, "cmd.build_cdb(same fields) = %s / %s, first build %s" % (again.hex(), again2.hex(), orig_cdb.hex()), wit)
             except Exception as e:  # noqa: BLE001
                 ctx.fail("C02:%s.roundtrip_raises" % c.name, "second build_cdb raised", wit, exc=e)
+            # a deep copy is a command of its own: scribbling over the copy's CDB leaves this command's CDB alone
+            try:
+                import copy as _copy
+
+                dup = _copy.deepcopy(cmd)
+                for i in range(1, len(dup.cdb)):
+                    dup.cdb[i] ^= 0xFF
+                ctx.count("deep_copies_edited")
+                if bytes(cmd.cdb) != orig_cdb:
+                    ctx.fail("C02:%s.cdb_shared_with_deep_copy" % c.name, "editing the CDB of copy.deepcopy(cmd) in place changed cmd.cdb: %s, was %s" % (bytes(cmd.cdb).hex(), orig_cdb.hex()), wit)
+                    cmd.cdb = bytearray(orig_cdb)
+            except Exception as e:  # noqa: BLE001
+                ctx.fail("C02:%s.roundtrip_raises" % c.name, "deepcopy of the command raised %s" % type(e).__name__, wit, exc=e)
             # a CDB handed out earlier keeps decoding to the values it was built from, whatever is built on the object later
             k1 = next((k for k in fields if k != "opcode" and k in widths and isinstance(fields[k], int)), None)
             if k1 is not None:
@@ -221,10 +234,17 @@ def run(shard, ctx):
             typed.append({k: (bool(v) if widths[k] == 1 else harness.IntSub(v)) for k, v in d.items()})
         ctx.count("typed_assignments", len(typed))
         assigns = assigns + typed
+        # ... and with field names that are equal but distinct string objects (a dictionary that came from json or parsed text)
+        renamed = [{harness.fresh_str(k): v for k, v in d.items()} for d in assigns[:: max(1, len(assigns) // 60)]]
+        ctx.count("assignments_with_runtime_made_names", len(renamed))
+        assigns = assigns + [dict(d, **{"_fresh_names": True}) for d in renamed]
         fresh_same_class()
         for d in assigns:
             d = dict(d)
-            d["opcode"] = c.op
+            if d.pop("_fresh_names", False):
+                d[harness.fresh_str("opcode")] = c.op
+            else:
+                d["opcode"] = c.op
             ctx.case((c.name, "direct", tuple(sorted(d.items()))), nz(d) >= 2)
             wit = {"cmd": c.name, "fields": d}
             try:
